@@ -389,6 +389,16 @@ func txFieldVariants(s txSpec) []struct {
 	return out
 }
 
+func txFieldVariantsAt(i int) []struct {
+	field string
+	s     txSpec
+} {
+	if i >= len(txPool) {
+		return nil
+	}
+	return txFieldVariants(txPool[i])
+}
+
 func fieldName(f string) string {
 	for i := 0; i < len(f); i++ {
 		if f[i] == ':' {
@@ -487,7 +497,10 @@ func perturbations(c blockCfg, base *types.Block) []pert {
 	ntx := len(base.Data.Txs)
 	for i := 0; i < ntx; i++ {
 		i := i
-		for _, v := range txFieldVariants(txPool[i]) {
+		if i == utxoPos {
+			utxoVariants(l, i)
+		}
+		for _, v := range txFieldVariantsAt(i) {
 			v := v
 			l.add("txs", "tx."+fieldName(v.field), fmt.Sprintf("tx[%d].%s", i, v.field), true, func(b *types.Block) bool {
 				if b.Data == nil || i >= len(b.Data.Txs) {
